@@ -63,6 +63,22 @@ CLAIMED = {
               "dimensions and a missing face dimension are given to the real constructor and the TLA+ trace specification "
               "requires constructed <=> reciprocal over existing faces/axes."),
         ref="4 C17, 3.3", technique="TLA+ predicate Reciprocal model-checked with TLC + TLC trace validation of real constructor outcomes"),
+    "C10": dict(
+        text=("The selection rule is written in TLA+ as the SET of metrics it allows (exact axis set at the array's position, "
+              "else any one interpolated with extension; else any registered partition with the largest first block, each "
+              "block at the position or interpolated) and every real get_metric answer on random registries must be a member "
+              "(with a warning when interpolated, KeyError when the set is empty, broadcasting dims); integrate, average "
+              "(NaN masks, constant fields), derivative and metric_weighted diff/interp/min/max/cumsum on non-uniform integer "
+              "metrics with distractor variables at other positions are recomputed by TLC as exact rationals."),
+        ref="4 C10, 3.6", technique="TLA+ spec (MetricSelect: nondeterministic selection rule) + TLC trace validation of real get_metric and operator calls"),
+    "C16": dict(
+        text=("TLC exhausts the registry state machine (2 keys x 2 slots x 2 candidate variables, calls of 1-2 variables, "
+              "overwrite on/off, 4 calls) with a history variable and checks: each slot holds the latest successful "
+              "registration, at most one variable per slot, a refusal keeps the refused slot, a batch equals its singles. The "
+              "implementation's own reachable registry graph is explored breadth-first (every call from every reached state, "
+              "first call also via the constructor) and every transition (registry before, call, outcome, registry after, "
+              "get_metric at every slot) must be a step of that state machine."),
+        ref="4 C16, 3.6", technique="TLA+ state machine (Metrics) model-checked with TLC + TLC validation of every transition of the implementation's registry graph"),
 }
 
 PENDING_REASON = "check not built yet in this session (planned; see DESIGN.md section 9 build order)"
